@@ -13,6 +13,7 @@ QUAL = 'PoolScheduler._compute_fair_share'
 PoolScheduler = poolmod.PoolScheduler
 
 LIMITS = floatcut.Limits()
+RULES = ('rdiv', 'rint', 'deasync')
 _cut = None
 
 
@@ -22,13 +23,13 @@ def configure(abits, nmax):
     LIMITS.rdiv_a_bits = abits
     LIMITS.rdiv_n_max = nmax
     LIMITS.rint_bits = abits + 2
-    _cut = floatcut.cut(SRC, QUAL, poolmod, limits=LIMITS)  # eagerly, at import time (outside CrossHair tracing)
+    _cut = floatcut.cut(SRC, QUAL, poolmod, rules=RULES, limits=LIMITS)  # eagerly, at import time (outside CrossHair tracing)
 
 
 def cut_result():
     global _cut
     if _cut is None:
-        _cut = floatcut.cut(SRC, QUAL, poolmod, limits=LIMITS)
+        _cut = floatcut.cut(SRC, QUAL, poolmod, rules=RULES, limits=LIMITS)
     return _cut
 
 
@@ -69,7 +70,9 @@ def allocations(rs, qs, free, use_cut=True):
         c = cut_result()
         if c.applied:
             fn = c.fn
-    res = drive(fn(s, free))
+    res = fn(s, free)
+    if hasattr(res, 'send'):        # still a coroutine (uncut method, or deasync not applicable)
+        res = drive(res)
     if len(res) != n:
         raise AssertionError('result does not list every user exactly once')
     return [res[f'u{i}']['allocated_cores_mcpu'] for i in range(n)]
